@@ -734,6 +734,10 @@ impl Broker {
                         &&& final(state).create_service@ == old(state).create_service@.push(
                                 ServiceId { object_id: ObjectId { uuid: u, cookie: req.object_cookie }, uuid: req.uuid, cookie: sc })
                         &&& final(state).rest_eq(old(state), 9)
+                        // an owner below 1.18 cannot be sent SubscribeAllEvents: its service is recorded as NOT supporting
+                        // all-events subscriptions, whatever its ServiceInfo claimed (so subscribe_all_events answers NotSupported)
+                        &&& (ProtocolVersion::lex_cmp(old(self).conns@[*id].version, ProtocolVersion::V1_18) == core::cmp::Ordering::Less
+                                ==> final(self).svc_uuids@[sc].2.spec_subscribe_all() == Some(false))
                     })
             },
             old(self).stat_services_ok() && old(self).svcs@.len() < usize::MAX ==> final(self).stat_services_ok(),
